@@ -212,6 +212,10 @@ fn lang_key(tree: &VerifRegexTree, tree_s: &str) -> String {
     }
 }
 
+fn wrng_pick(rng: &mut ChaCha8Rng) -> bool {
+    rng.gen_range(0..8) == 0
+}
+
 struct Compiled {
     tree: VerifRegexTree,
     tree_s: String,
@@ -253,19 +257,24 @@ fn one_spec(ctx: &mut Ctx, s: &Spec, rng: &mut ChaCha8Rng, nwords: usize) -> Opt
     // the tree built by the real combinators must be the transcription's tree
     ctx.case("tree", spec_size(s) > 1, &format!("tree {spec_s}"), &tree_s);
     // Is the language output-deterministic (reference verdict; `None` = too large to tell)?
-    let det = {
+    let (det, dead_concat) = {
         let rx = reference::from_tree(&tree);
         let mut ms = vec![0usize];
         reference::markers_of(&tree, &mut ms);
         ms.sort();
         let reps = reference::tree_byte_classes(&tree);
-        reference::output_deterministic(&rx, &reps, &ms, 400, 3000)
+        (
+            reference::output_deterministic(&rx, &reps, &ms, 300, 3000),
+            reference::has_dead_concat(&tree, &reps, &ms),
+        )
     };
     let compiled = catch(|| regex.to_automaton());
     if det.is_some() {
         let refused = matches!(&compiled, Err(m) if m.contains("non output-deterministic"));
         let panicked = compiled.is_err() && !refused;
-        if !panicked {
+        // the refusal verdict goes to the model for every refused expression and for a sample
+        // of the compiled ones
+        if !panicked && (refused || wrng_pick(rng)) {
             ctx.case(
                 if refused { "detcheck-refused" } else { "detcheck-compiled" },
                 true,
@@ -274,8 +283,16 @@ fn one_spec(ctx: &mut Ctx, s: &Spec, rng: &mut ChaCha8Rng, nwords: usize) -> Opt
             );
         }
         if det == Some(true) && refused {
+            let key = if has_marked_complement(&tree) {
+                "regex-lang:marked-complement".to_string()
+            } else if dead_concat {
+                // known finding: conflict detected in a dead part of the automaton
+                "regex-dead-concat-conflict".to_string()
+            } else {
+                format!("regex-refused-deterministic:{tree_s}")
+            };
             ctx.oracle_fail(
-                &format!("regex-refused-deterministic:{tree_s}"),
+                &key,
                 "Regex::to_automaton refuses an output-deterministic expression",
                 json!({"spec": spec_s, "tree": tree_s, "panic": compiled.as_ref().err()}),
             );
@@ -293,10 +310,12 @@ fn one_spec(ctx: &mut Ctx, s: &Spec, rng: &mut ChaCha8Rng, nwords: usize) -> Opt
         Err(msg) => {
             if msg.contains("non output-deterministic") {
                 ctx.count("regex:refused-non-output-deterministic");
-            } else if msg.contains("witness_reachability has been called on an unreachable state") {
+            } else if msg.contains("witness_reachability has been called on an unreachable state")
+                && dead_concat
+            {
                 // known finding: conflict detected in a dead part of the automaton
                 ctx.oracle_fail(
-                    "regex-compile-panic:witness-unreachable-state",
+                    "regex-dead-concat-conflict",
                     "Regex::to_automaton panics with an internal '(bug)' message",
                     json!({"spec": spec_s, "tree": tree_s, "panic": msg, "reference_deterministic": det}),
                 );
